@@ -260,10 +260,14 @@ Section Repair.
 Variable Hp : meas -> Z -> list Z.
 
 (** linearSearch.Process: [P] = GOMAXPROCS goroutines, goroutine [i] tries the
-    decrements of its block; the last block ends at [limit]. *)
+    decrements of its block; the last block ends at [limit], and so does every
+    block that would reach beyond it (since the repair 92fa0d4 in /repo: before
+    it, with P > limit + 1, blocks of size 1 went on beyond the limit); a block
+    that starts at or beyond the limit is empty. *)
 Definition lin_blocks (P limit : Z) : list (Z * Z) :=
   let bs := Z.max 1 (Z.quot limit P) in
-  map (fun i => (i * bs, if i =? P - 1 then limit else (i + 1) * bs)) (seqZ 0 (Z.to_nat P)).
+  map (fun i => (i * bs, if (i =? P - 1) || (limit <? (i + 1) * bs) then limit else (i + 1) * bs))
+      (seqZ 0 (Z.to_nat P)).
 
 Definition block_cands (b : Z * Z) : list Z := seqZ (fst b) (Z.to_nat (snd b - fst b)).
 
